@@ -35,6 +35,20 @@ impl Prng {
     }
 }
 
+/// Observation token for a value: hex, or `~<len>.<fnv1a-64>` for values over 256 bytes (keeps the
+/// traces small; both sides print the same token).
+pub fn hexv(bytes: &[u8]) -> String {
+    if bytes.len() <= 256 {
+        return hex(bytes);
+    }
+    let mut h: u64 = 0xcbf2_9ce4_8422_2325;
+    for b in bytes {
+        h ^= *b as u64;
+        h = h.wrapping_mul(0x0000_0100_0000_01b3);
+    }
+    format!("~{}.{:016x}", bytes.len(), h)
+}
+
 pub fn hex(bytes: &[u8]) -> String {
     if bytes.is_empty() {
         return "-".to_string();
